@@ -79,17 +79,25 @@ class Charset(BaseEngine):
         return 'fault_enumeration'
 
     def tiers(self, prop):
-        return {'quick': 4_000, 'thorough': 400_000}
+        return {'quick': 30_000, 'thorough': 2_000_000}
 
     # --------------------------------------------------------------- generation
-    def gen_content(self, rng, cs):
+    def gen_content(self, rng, cs, pool=()):
         tracks = []
         for _ in range(rng.randint(1, 2)):
             tr = []
             for _ in range(rng.randint(1, 4)):
                 r = rng.random()
                 if r < 0.6:
-                    tr.append(['text', pick(rng, sorted(TEXT_TYPES)), gen_text(rng, cs), pick(rng, (0, 1, 200))])
+                    t = gen_text(rng, cs)
+                    if pool and rng.random() < 0.7:
+                        cand = pick(rng, pool)
+                        try:
+                            if cand.encode(cs).decode(cs) == cand:
+                                t = cand
+                        except UnicodeError:
+                            pass
+                    tr.append(['text', pick(rng, sorted(TEXT_TYPES)), t, pick(rng, (0, 1, 200))])
                 elif r < 0.9:
                     tr.append(['note', rng.randrange(128), pick(rng, (0, 10, 128))])
                 else:
@@ -105,13 +113,14 @@ class Charset(BaseEngine):
                 'via': pick(rng, ('file', 'filename'))}
         if direction == 'chain':
             calls = []
+            pool = [''.join(pick(rng, POOL[:10]) for _ in range(rng.randint(1, 3))) for _ in range(3)]
             for _ in range(rng.randint(2, 6)):
                 ccs = pick(rng, CHARSETS)
                 d = pick(rng, ('load', 'save'))
                 fk = weighted(rng, (('none', 3), ('io', 3), ('semantic', 3)))
                 calls.append({'charset': ccs, 'dir': d, 'fault': fk, 'where': rng.randrange(1000),
                               'sem': pick(rng, LOAD_FAULTS if d == 'load' else SAVE_FAULTS),
-                              'content': self.gen_content(rng, ccs), 'via': pick(rng, ('file', 'filename'))})
+                              'content': self.gen_content(rng, ccs, pool), 'via': pick(rng, ('file', 'filename'))})
             plan['calls'] = calls
             plan['probe_each'] = rng.random() < 0.6
         return plan
@@ -125,6 +134,7 @@ class Charset(BaseEngine):
         stats = collections.Counter()
         cov = set()
         viol = None
+        log.ev('plan', plan['charset'], plan['direction'], repr(plan.get('content')), repr(plan.get('calls')))
         try:
             try:
                 if plan['direction'] == 'chain':
@@ -149,11 +159,22 @@ class Charset(BaseEngine):
             meta._charset = 'latin1'
 
     # --------------------------------------------------------------- the probe
-    def probe(self, where, stats):
-        """Meta text encoded/decoded elsewhere in the process must use latin1 again."""
+    def probe(self, where, stats, texts=()):
+        """Meta text encoded/decoded elsewhere in the process must use latin1 again - for fixed
+        discriminating texts and for the very texts the preceding call handled."""
         stats['probes_run'] += 1
         checks = []
         try:
+            for t in texts:
+                try:
+                    raw = list(t.encode('latin1'))
+                except UnicodeError:
+                    continue
+                if len(raw) > 127:
+                    continue
+                checks.append((f'encode {t!r}', MetaMessage('marker', text=t).bytes(), [0xFF, 0x06, len(raw)] + raw))
+                checks.append((f'decode {bytes(raw)!r}', MetaMessage.from_bytes([0xFF, 0x05, len(raw)] + raw).text,
+                               bytes(raw).decode('latin1')))
             checks.append(('encode é', MetaMessage('text', text='é').bytes(), [0xFF, 0x01, 0x01, 0xE9]))
             checks.append(('encode A', MetaMessage('track_name', name='A').bytes(), [0xFF, 0x03, 0x01, 0x41]))
             checks.append(('decode E9', MetaMessage.from_bytes([0xFF, 0x01, 0x01, 0xE9]).text, 'é'))
@@ -255,7 +276,8 @@ class Charset(BaseEngine):
         tag, image = self.do_save(mf, disk, via)
         if tag != 'ok':
             raise Violation('save-raised', f'saving storable content with charset {cs} raised {image!r}')
-        self.probe(f'save[{cs}]', stats)
+        own = [t for _, t in want]
+        self.probe(f'save[{cs}]', stats, own)
         # (1) fault-free round trip and bytes in the file
         try:
             _, _, _, wtracks = simdisk.walk_smf(image)
@@ -272,7 +294,7 @@ class Charset(BaseEngine):
             raise Violation('load-raised', f'loading the image just saved with charset {cs} raised {back!r}')
         if texts_of(back) != want:
             raise Violation('text-roundtrip', f'charset {cs}: texts {want!r} came back as {texts_of(back)!r}')
-        self.probe(f'load[{cs}]', stats)
+        self.probe(f'load[{cs}]', stats, own)
         if cs in ('utf-16', 'utf-32') and any(s for _, s in want):
             stats['probe:utf16_bom_roundtrip'] += 1
         stats['roundtrips'] += 1
@@ -367,8 +389,20 @@ class Charset(BaseEngine):
                 tag, res = self.do_load(image, cs, disk, c['via'], fault=fault,
                                         default_charset=(cs == 'latin1' and c['where'] % 3 == 0))
             log.ev('call', ci, c['dir'], cs, c['fault'], tag, type(res).__name__ if tag == 'raised' else '')
+            own = [t for _, t in texts_of(build_file(c['content'], cs))]
+            if c['dir'] == 'save' and tag == 'ok' and c['fault'] == 'none':
+                try:
+                    _, _, _, wtracks = simdisk.walk_smf(res)
+                except simdisk.SMFError as e:
+                    raise Violation('image-not-smf', f'independent SMF walker cannot read the saved image: {e}')
+                payloads = [bytes(p) for tr in wtracks for (_, kind, mt, p) in tr
+                            if kind == 'meta' and mt in {v[1] for v in TEXT_TYPES.values()}]
+                expect = [t.encode(cs) for t in own]
+                if payloads != expect:
+                    raise Violation('payload-bytes', f'call {ci}: charset {cs}: text payloads in the file are '
+                                                     f'{payloads!r}, the texts encoded in that charset are {expect!r}')
             if plan['probe_each']:
-                self.probe(f'{c["dir"]}[{cs}] {c["fault"]}', stats)
+                self.probe(f'{c["dir"]}[{cs}] {c["fault"]}', stats, own)
             elif failed_before and tag == 'ok':
                 stats['probe:leak_visible_only_after_next_call'] += 1
             if tag == 'raised':
